@@ -749,6 +749,19 @@ pub fn run(ctx: &Ctx) -> Outcome {
     }
     let not_tzif = wd.join("not-a-zone.txt");
     let _ = std::fs::write(&not_tzif, "this is a text file, not TZif data\n");
+    // a TZif file far larger than any stock zoneinfo file (1000 transitions, > 5 KB, v1 only): it
+    // must be read completely
+    let big = {
+        let (ta, tb) = (TzType { off: 4 * 3600 + 44 * 60 + 44, dst: false, name: "BGA".into() }, TzType { off: 5 * 3600 + 44 * 60 + 44, dst: true, name: "BGB".into() });
+        let transitions: Vec<(i64, usize)> = (0..1000).map(|k| (-2_000_000_000 + k as i64 * 2_600_000, (k + 1) % 2)).collect();
+        let m = ZoneModel { transitions, types: vec![ta, tb], leaps: vec![], rule: None };
+        let b = tz::write_tzif(&m, &WriteOpts { version: 1, indicators: false, full_v1: true, footer_override: None });
+        let p = wd.join("zone-big.tzif");
+        if b.len() <= 4096 || std::fs::write(&p, b).is_err() {
+            rep.harness_error("cannot write the large zone file");
+        }
+        p
+    };
     let (Some(fa), Some(fb), Some(fc)) = (fa, fb, fc) else {
         rep.harness_error("cannot write zone files");
         return rep.finish(ctx, "setup failed", &[]);
@@ -757,6 +770,7 @@ pub fn run(ctx: &Ctx) -> Outcome {
         Source { kind: "abs", value: Some(fa.display().to_string()), valid: true },
         Source { kind: "colon_abs", value: Some(format!(":{}", fb.display())), valid: true },
         Source { kind: "abs", value: Some(fc.display().to_string()), valid: true },
+        Source { kind: "abs", value: Some(big.display().to_string()), valid: true },
         Source { kind: "name", value: Some("Asia/Kathmandu".into()), valid: true },
         Source { kind: "colon_name", value: Some(":America/St_Johns".into()), valid: true },
         Source { kind: "colon_name", value: Some(":Pacific/Chatham".into()), valid: true },
